@@ -179,7 +179,17 @@ private:
 	m_base_absval.weak_assign(ghost_x, ghost_y);	
       } 
     } else {
+      // The base domain has already performed the assignment: a
+      // rewritten expression that mentions x itself (a term COEF*x of
+      // e becomes x) would read the new value of x instead of the old one.
+      bool mentions_x = false;
       if (can_rewrite_linear_expression(e, coefficient)) {
+	linear_expression_t re = rewrite_linear_expression(e, coefficient);
+	for (auto const &v : re.variables()) {
+	  mentions_x |= (v == x);
+	}
+      }
+      if (!mentions_x && can_rewrite_linear_expression(e, coefficient)) {
 	if (!weak) {
 	  m_base_absval.assign(ghost_x,
 			       rewrite_linear_expression(e, coefficient));
@@ -213,8 +223,9 @@ private:
         variable_t ghost_y = get_ghost_var(y, coefficient);
         m_base_absval.assign(ghost_x, ghost_y);
         return;
-      } else if ((z % tracked_coefficient) == 0) {
+      } else if ((z % tracked_coefficient) == 0 && !(x == y)) {
         // rewrite("x := (k*COEF) * y") = "x/COEF := k*y"
+        // (if x is y then y has already been overwritten)
         m_base_absval.apply(OP_MULTIPLICATION, ghost_x, y,
                             z / tracked_coefficient);
         return;
